@@ -91,6 +91,9 @@ func (p ReceiverEstimatedMaximumBitrate) MarshalTo(buf []byte) (n int, err error
 	buf[15] = 'B'
 
 	// Write the length of the ssrcs to follow at the end
+	if len(p.SSRCs) > math.MaxUint8 {
+		return 0, errTooManyReports
+	}
 	buf[16] = byte(len(p.SSRCs))
 
 	exp := 0
